@@ -333,47 +333,88 @@ def _float_terms(spec, m, out, lens):
                         out.append(z3.Select(val, z3.IntVal(i), z3.IntVal(j)))
 
 
+def _int_terms(spec, out):
+    kind = spec[0]
+    if kind == 'int':
+        if not z3.is_int_value(spec[1]):
+            out.append(spec[1])
+    elif kind in ('tuple', 'list'):
+        for x in spec[1]:
+            _int_terms(x, out)
+    elif kind == 'record':
+        for x in spec[2].values():
+            _int_terms(x, out)
+
+
 def _refine_model(s, m, ob):
-    """look for a counter-model whose float inputs are small integers (exactly representable, so the
-    replay on the real code sees exactly the solver's input) and whose arrays are short"""
+    """look for a counter-model that can be replayed exactly: short arrays, small integers, float inputs that
+    are small (quarter-)integers.  Tried in decreasing order of niceness; the first satisfiable one wins."""
     try:
-        terms, lens = [], []
+        terms, lens, ints = [], [], []
         for spec in ob.model.values():
             _float_terms(spec, m, terms, lens)
-        if not terms and not lens:
+            _int_terms(spec, ints)
+        if not terms and not lens and not ints:
             return None
-        s.push()
-        s.set('timeout', 10000)
-        for ln in lens:
-            cur = m.eval(ln, model_completion=True)
-            if z3.is_int_value(cur):
-                s.add(ln <= max(cur.as_long(), 0))
-        for t in terms:
-            s.add(z3.IsInt(t), t >= -64, t <= 64)
-        r = s.check()
-        if str(r) == 'sat':
-            m2 = s.model()
-            s.pop()
-            return m2
-        s.pop()
-        # second try: quarter-integers
-        s.push()
-        for ln in lens:
-            cur = m.eval(ln, model_completion=True)
-            if z3.is_int_value(cur):
-                s.add(ln <= max(cur.as_long(), 0))
-        for t in terms:
-            s.add(z3.IsInt(t * 4), t >= -1024, t <= 1024)
-        r = s.check()
-        m2 = s.model() if str(r) == 'sat' else None
-        s.pop()
-        return m2
-    except Exception:
-        try:
-            s.pop()
-        except Exception:
-            pass
+        best = None
+        for cap, fl in ((4, 'int'), (8, 'int'), (8, 'quarter'), (24, 'quarter'), (None, 'int'), (None, None)):
+            s.push()
+            try:
+                s.set('timeout', 8000)
+                for ln in lens:
+                    if cap is not None:
+                        s.add(ln <= cap)
+                if cap is not None:
+                    for it in ints:
+                        s.add(it <= 4 * cap, it >= -4 * cap)
+                m_len = s.model() if False else None
+                if fl is not None:
+                    # float cells of arrays: enumerate cells of the (now short) arrays
+                    cells = list(terms)
+                    if cap is not None:
+                        cells = []
+                        for spec in ob.model.values():
+                            _float_cells_upto(spec, cap, cells)
+                    for t in cells:
+                        if fl == 'int':
+                            s.add(z3.IsInt(t), t >= -64, t <= 64)
+                        else:
+                            s.add(z3.IsInt(t * 4), t >= -1024, t <= 1024)
+                if str(s.check()) == 'sat':
+                    best = s.model()
+            finally:
+                s.pop()
+            if best is not None:
+                return best
         return None
+    except Exception:
+        return None
+
+
+def _float_cells_upto(spec, cap, out):
+    kind = spec[0]
+    if kind == 'float':
+        out.append(spec[2])
+    elif kind in ('tuple', 'list'):
+        for x in spec[1]:
+            _float_cells_upto(x, cap, out)
+    elif kind == 'record':
+        for x in spec[2].values():
+            _float_cells_upto(x, cap, out)
+    elif kind == 'carr':
+        for c in spec[3]:
+            if c is not None:
+                _float_cells_upto(c, cap, out)
+    elif kind == 'arr':
+        _, elem, dtype, val, tag, shape, dims = spec
+        if elem == 'float':
+            if len(shape) == 1:
+                for i in range(cap):
+                    out.append(z3.Select(val, z3.IntVal(i)))
+            elif len(shape) == 2:
+                for i in range(cap):
+                    for j in range(min(cap, 8)):
+                        out.append(z3.Select(val, z3.IntVal(i), z3.IntVal(j)))
 
 
 # ---------------------------------------------------------------------- pool
